@@ -1,6 +1,9 @@
 import HeraProofs.Props.C06
+import HeraProofs.Props.C06b
 open Hera
 #print axioms C01_step
 #print axioms C05_decode_sound
 #print axioms C06_exec_canon
 #print axioms C06_wordStep_exec
+#print axioms C06_image_step
+#print axioms C06_image_run
